@@ -491,12 +491,12 @@ def r7_convert(report, repo):
 
 
 def run(report, repo):
-  r1_schema(report, repo)
-  r2_record_lists(report, repo)
-  r2b_no_write_after_add(report, repo)
+  report.guard(r1_schema, report, repo)
+  report.guard(r2_record_lists, report, repo)
+  report.guard(r2b_no_write_after_add, report, repo)
   from sa.rules import c06  # pylint: disable=g-import-not-at-top
-  c06.r3_stored_value(report, repo, only_cache=True)
-  r4_measurement_outcome(report, repo)
-  r5_phase_state(report, repo)
-  r6_allow_nan(report, repo)
-  r7_convert(report, repo)
+  report.guard(c06.r3_stored_value, report, repo, only_cache=True)
+  report.guard(r4_measurement_outcome, report, repo)
+  report.guard(r5_phase_state, report, repo)
+  report.guard(r6_allow_nan, report, repo)
+  report.guard(r7_convert, report, repo)
